@@ -105,7 +105,20 @@ func genCallProg(id int, seed int64) *Prog {
 	}
 	// callee signature
 	var sig, names []string
+	blank := map[int]bool{}
+	if rng.Intn(4) == 0 { // some parameters are blank (_): they still take their argument
+		for i := range ptypes {
+			if rng.Intn(2) == 0 {
+				blank[i] = true
+			}
+		}
+	}
 	for i, t := range ptypes {
+		if blank[i] {
+			names = append(names, "_")
+			sig = append(sig, "_ "+t)
+			continue
+		}
 		names = append(names, fmt.Sprintf("p%d", i))
 		sig = append(sig, fmt.Sprintf("p%d %s", i, t))
 	}
@@ -118,7 +131,9 @@ func genCallProg(id int, seed int64) *Prog {
 	var cb strings.Builder
 	var uses []string
 	for i, t := range ptypes {
-		uses = append(uses, useParam(names[i], t))
+		if !blank[i] {
+			uses = append(uses, useParam(names[i], t))
+		}
 	}
 	if variadic {
 		uses = append(uses, "len(rest)")
@@ -136,7 +151,7 @@ func genCallProg(id int, seed int64) *Prog {
 		// a parameter of that type if there is one, else a constant
 		var cands []string
 		for i, t := range ptypes {
-			if t == rt {
+			if t == rt && !blank[i] {
 				cands = append(cands, names[i])
 			}
 		}
@@ -360,7 +375,7 @@ func checkC09(tier string, seed int64) int {
 	agg.Into(c, "")
 	c.Cov("call_forms", forms)
 	c.Cov("recursion_depths", depths)
-	c.Cov("rule", "seeded call programs: callee with 0–5 parameters over {int, byte, int8, uint32, float64, bool, string, []int, *T, func(int) int}, optional variadic tail (int/byte/string/float64/int8/uint32; none, 1–3 extras mixing typed values and untyped constants in either order, or spread s...); parameters and variadic elements are printed with powers / quotients that reveal their static type, 0–3 results; call forms statement, multi-assign, return f() wrapper, inside an expression, method, method value taken before the receiver variable is reassigned, function variable, struct field of func type, func parameter, func literal; arguments are distinct symbolic inputs, untyped constants or nil; plus recursion to the listed concrete depths with symbolic accumulator")
+	c.Cov("rule", "seeded call programs: callee with 0–5 parameters (some of them blank `_`) over {int, byte, int8, uint32, float64, bool, string, []int, *T, func(int) int}, optional variadic tail (int/byte/string/float64/int8/uint32; none, 1–3 extras mixing typed values and untyped constants in either order, or spread s...); parameters and variadic elements are printed with powers / quotients that reveal their static type, 0–3 results; call forms statement, multi-assign, return f() wrapper, inside an expression, method, method value taken before the receiver variable is reassigned, function variable, struct field of func type, func parameter, func literal; arguments are distinct symbolic inputs, untyped constants or nil; plus recursion to the listed concrete depths with symbolic accumulator")
 	c.Cov("paths_compared", st.compared)
 	return c.Finish(false)
 }
